@@ -491,3 +491,82 @@ def p2o_stream(pid, res, tier, seed):
         r = 'panic' if o.get('panic') else '(ok %d)' % o['offset']
         lines.append('(p2o (%s) %d %d %s)' % (' '.join(str(ord(ch)) for ch in t), l, c, r))
     drv_lines(pid, lines, res, 'p2o')
+
+
+PAR_VOCAB = ['%start', '%title', '%comment', '%user_type', '=', '%nt_type', '%t_type', '%grammar_type', '%line_comment',
+             '%block_comment', '%auto_newline_off', '%auto_ws_off', '%skip', '%on', '%allow_unmatched', '%enter', '%push', '%pop',
+             '%%', '::', ':', ';', '|', '<', '>', '"s"', "'r'", '/x/', '(', ')', '[', ']', '{', '}', 'Id', '%scanner', ',', '@', '^', '?=', '?!',
+             '// c\n', '/* c */', '\n', ' ', 'Ü', '"', "'", '/', '%', '%x']
+
+
+def mutate_text(rng, text, o):
+    """One token-level edit of a valid text (delete / duplicate / replace / insert a vocabulary item / swap)."""
+    b = text.encode('utf-8')
+    toks = [(s, e) for ty, s, e in o['tokens'] if ty >= 5]
+    if not toks:
+        return text + rng.choice(PAR_VOCAB)
+    i = rng.randrange(len(toks))
+    s, e = toks[i]
+    k = rng.randrange(5)
+    if k == 0:
+        nb = b[:s] + b[e:]
+    elif k == 1:
+        nb = b[:e] + b' ' + b[s:e] + b[e:]
+    elif k == 2:
+        nb = b[:s] + rng.choice(PAR_VOCAB).encode() + b[e:]
+    elif k == 3:
+        nb = b[:s] + rng.choice(PAR_VOCAB).encode() + b' ' + b[s:]
+    else:
+        j = rng.randrange(len(toks))
+        s2, e2 = toks[j]
+        if s2 < s:
+            s, e, s2, e2 = s2, e2, s, e
+        if e <= s2:
+            nb = b[:s] + b[s2:e2] + b[e:s2] + b[s:e] + b[e2:]
+        else:
+            nb = b
+    return nb.decode('utf-8', 'replace')
+
+
+def c34(pid, spec, tier, seed):
+    """Both REAL grammar parsers (parol's and the language server's) on the same texts: same verdict."""
+    ensure_ls()
+    res = new_result()
+    wdir = os.path.join(cl.WORK, pid)
+    texts, rng = texts_for(seed, tier, 150, 4000)
+    base = [t for _, t in texts]
+    oracle = par_oracle(base, wdir, 'base')
+    allt = list(base)
+    for t, o in zip(base, oracle):
+        if o['ok']:
+            for _ in range(3 if tier == 'thorough' else 2):
+                allt.append(mutate_text(rng, t, o))
+    for _ in range(2000 if tier == 'thorough' else 200):
+        allt.append(' '.join(rng.choice(PAR_VOCAB) for _ in range(rng.randint(1, 25))))
+    allt = list(dict.fromkeys(allt))
+    po = par_oracle(allt, wdir, 'all')
+    inp = '\n'.join(json.dumps({'op': 'parse', 'text': t}) for t in allt) + '\n'
+    p = subprocess.run([lsp.LS_BIN], input=inp, stdout=subprocess.PIPE, stderr=subprocess.DEVNULL, text=True,
+                       env=dict(os.environ, PAROL_LS_VERIF='1'), timeout=3000)
+    lo = [json.loads(l) for l in p.stdout.split('\n') if l.startswith('{')]
+    if len(lo) != len(allt):
+        raise cl.MachineryError('parol-ls batch mode returned %d answers for %d texts' % (len(lo), len(allt)))
+    for t, a, b in zip(allt, po, lo):
+        res['evaluations'] += 1
+        case = json.dumps(dict(text=t))
+        if a.get('panic') or b.get('panic'):
+            fail(res, 'panic-' + ('parol' if a.get('panic') else 'parol-ls'), 'a grammar parser panicked', case)
+        elif (a['ok'] or a['cfg'].startswith('SEMANTIC-ERROR')) != (b.get('kind') in ('ok', 'semantic')):
+            # only SYNTAX errors are compared: errors raised by the semantic actions of either front end are not syntax errors
+            sa = a['ok'] or a['cfg'].startswith('SEMANTIC-ERROR')
+            fail(res, 'syntax-accepted-only-by-' + ('parol' if sa else 'parol-ls'), 'parol: %s, language server: %s' % ('no syntax error' if sa else 'syntax error', b.get('kind')), case)
+        else:
+            res['ok'] += 1
+            ntok = len([1 for ty, _, _ in a['tokens'] if ty >= 5])
+            if ntok >= 10 or not a['ok']:
+                res['nontrivial'].add(hashlib.md5(case.encode()).digest())
+                if len(res['samples']) < 2 and len(t) < 300:
+                    res['samples'].append(dict(text=t, ok=a['ok']))
+            k = 'both-accept' if a['ok'] else 'both-reject'
+            res['dist'][k] = res['dist'].get(k, 0) + 1
+    return res
